@@ -199,6 +199,15 @@ func c16One(res *vlib.Result, si, enc, integ, ci, vc, life, ver, dir, tag int) {
 	} else {
 		run(M, I, "minter-dials", true)
 	}
+	// using the session does not move its deadline on either side: the two caches still agree
+	// with each other and with the deadline embedded in the claim id
+	if me2, ok := M.Lookup(sid); ok {
+		if ie2, ok := I.Lookup(sid); ok && life >= 1 {
+			if !me2.Expiration().Equal(ie2.Expiration()) || !me2.Expiration().Equal(me.Expiration()) {
+				res.Violate("C16/expiry-differs/after-use", "%s: after one resumption the minter's entry expires %v, the importer's %v (at mint time: %v)", id, me2.Expiration(), ie2.Expiration(), me.Expiration())
+			}
+		}
+	}
 	// the same connection opened BY COMMAND (no session id given): the dialer's cache
 	// must route (tag, peer address, command) to the claim session
 	if vc >= 1 {
